@@ -160,7 +160,8 @@ def d3(chk, prog):
         model.prims["skgenome.tabio.read"] = read
 
         def subtract(it, obj, other, ev=ev):
-            ev.append(("subtract", other.meta.get("filename")))
+            # the whole exclude table, as read: a one-base region (far narrower than the minimum gap) must still be cut out
+            ev.append(("subtract", other.meta.get("filename") if other.data.n == 1 else f"{other.meta.get('filename')} with {other.data.n} of 1 rows"))
             return obj
         model.method_prims["subtract"] = subtract
 
